@@ -413,6 +413,26 @@ def oracle_transfers(scn, res):
                     v.append((ci, "refused/listing-returned-text", "a refused listing came back with %d bytes of text" % (len(a["out"].rsplit(":", 1)[1]) // 2)))
             continue
         if a["out"].startswith("throw"):
+            # C05 (Ascii_Global.v, both branches): a failing ASCII download still leaves in the sink the conversion of what
+            # it read - a prefix of what the peer sent; with a CR read last held back when the data loop failed (no flush)
+            pl = e.get("payload")
+            if e["kind"] == "D" and scn["cfg_type_at"].get(ci, "I") == "A" and pl is not None and len(pl) <= 4096 \
+                    and not e.get("cancelled") and scn["calls"][ci][3] is None:
+                sw0 = [P.sw_len_hash(t) for t in io if t.startswith("sw")]
+                got_len, got_hash = sum(n for n, _ in sw0), 0
+                for n, h in sw0:
+                    got_hash = (got_hash * pow(P.HB, n, P.HM) + h) % P.HM
+                flushed = "sf" in io
+                cands = set()
+                for k in range(len(pl) + 1):
+                    c = from_crlf(pl[:k])
+                    if not flushed and pl[:k].endswith(b"\r"):
+                        c = c[:-1]
+                    cands.add((len(c), P.poly_hash(c)))
+                if (got_len, got_hash) not in cands:
+                    v.append((ci, "download/ascii-sink-is-not-the-conversion-of-what-was-read",
+                              "the call failed; its sink holds %d bytes%s, which is not the conversion of any prefix of the %d bytes sent" % (
+                                  got_len, " (flushed)" if flushed else "", len(pl))))
             continue
         call = scn["calls"][ci]
         cb = call[2] if e["kind"] == "D" else (call[4] if e["kind"] == "U" else None)
@@ -932,6 +952,18 @@ def fam_ascii(rng, n, dist, thorough=False):
                 b.sessions[si]["reactions"][ri]["data"]["pace_s"] = 0.002     # keep the segments apart on the wire
             dist.add("ascii:%s:%s" % (kind, "callback" if cb else "no-callback"))
         b.disconnect(True)
+        out.append(b.scenario())
+    # an ASCII download / listing whose data connection fails after a CR (TLS stream cut without close-notify: every byte sent
+    # arrives, then the error): the data loop ends without a flush, the sink holds the conversion of what was read with that
+    # last CR held back - never the CR as if the text had ended there (Ascii_Global.v, the branch without a flush)
+    for k, payload in enumerate([b"line\r\nab\r", b"x\r\r", b"\r"]):
+        b = S.Builder(rng, *ALL_METHODS[k % 4], type="A", tls=True, resume=True, tlsver="12", verify="trusted")
+        b.connect(login=(b"u", b"p"))
+        kind = "F" if k == 1 else "D"
+        b.transfer(kind, b"cut.txt" if kind == "D" else None, payload_segs=[payload], cb=[None, [False] * 20][k % 2] if kind == "D" else None,
+                   data_fault="truncate")
+        b.disconnect(False)
+        dist.add("ascii:%s:cut-after-a-CR" % kind)
         out.append(b.scenario())
     return out
 
